@@ -111,6 +111,14 @@ def global_rewrites(text, fired):
         if a in text:
             fired.append('R5:%s->%s' % (a, b))
             text = text.replace(a, b)
+    # closure parameter `_` (rejected by Verus) -> a named, unused parameter: `|_|` / `|_: T|`
+    mask0 = rs.code_mask(text)
+    def _clo(mm):
+        if not mask0[mm.start()]:
+            return mm.group(0)
+        fired.append('R7:closure parameter `_` -> `_unused`')
+        return '|_unused' + (mm.group(1) or '') + '|'
+    text = re.sub(r'\|\s*_\s*(:[^|]*)?\|', _clo, text)
     # .unwrap() / .expect("..") -> .rt_unwrap()
     mask = rs.code_mask(text)
     out = []
